@@ -98,6 +98,10 @@ def gen_cases(tier, seed):
     thorough = tier == "thorough"
     for c in cells():
         yield dict(c, id="cell/%s/%s/%s/%s" % (c["tool"], c["switch"], "append" if c["append"] else "noappend", c["pre"]), kind="cell")
+    for tool in ("assembler", "file_util"):
+        for sw in ("--to_bin", "--to_cas", "--to_dsk"):
+            for app in (False, True):
+                yield {"id": "tilde/%s/%s/%s" % (tool, sw, app), "kind": "tilde", "tool": tool, "switch": sw, "append": app, "pre": "cassette"}
     allc = list(cells())
     for k in range(1500 if thorough else 100):
         r = rng(seed, "C10", "seq", k)
@@ -247,6 +251,35 @@ def run_case(case, ctx):
             open(target, "wb").write(content)
         if case["kind"] == "strace":
             run_strace(case, ctx, d, r)
+            return
+        if case["kind"] == "tilde":
+            # the protected file lives at $HOME/target.out; the target argument is the literal string ~/target.out
+            home = os.path.join(d, "home")
+            os.makedirs(home)
+            prot = os.path.join(home, "target.out")
+            os.rename(target, prot)
+            before = open(prot, "rb").read()
+            old_home = os.environ.get("HOME")
+            os.environ["HOME"] = home
+            try:
+                tool, argv = argv_of(case)
+                argv = [a if a != "target.out" else "~/target.out" for a in argv]
+                res = fsmon.run_cli(tool, argv, d)
+            finally:
+                if old_home is None:
+                    os.environ.pop("HOME", None)
+                else:
+                    os.environ["HOME"] = old_home
+            after = open(prot, "rb").read() if os.path.exists(prot) else None
+            ctx.mon("M6.cli-runs")
+            allowed = case["append"] and SWITCH_KIND[case["switch"]] == "cassette"
+            if after != before and not allowed:
+                ctx.outcome("wrote-protected")
+                ctx.violation("protect", "tilde-path", "WROTE-PROTECTED-TARGET", {"show": "%s %s: $HOME/target.out changed (%s)" % (tool, " ".join(argv), res.out.strip()[-60:])},
+                              {"tool": case["tool"], "switch": case["switch"], "append": case["append"]})
+            else:
+                ctx.outcome("tilde-ok")
+                ctx.nontriv(case["id"])
             return
         steps = [case] if case["kind"] == "cell" else case["steps"]
         label = case["pre"]
